@@ -13,7 +13,7 @@ EXPLANATION = (
     "binary64 terms (z3 FloatingPoint, C fmod modelled exactly through fp.rem) and the result is proved to lie in the "
     "closed interval [-pi, pi] for every finite |a| <= 1e6."
 )
-BOUNDS = "ops {construct,+,-,inverse,copy,boxplus} x {SE2,SE3}; all operands symbolic; one inductive step (unit in => unit out); the optimizer's own update with an arbitrary solver output for 1 and 3 iterations (chi^2 free per state)"
+BOUNDS = "ops {construct,+,-,inverse,copy,boxplus,+= (also with one object on both sides)} x {SE2,SE3}; all operands symbolic; one inductive step (unit in => unit out); the optimizer's own update with an arbitrary solver output for 1 and 3 iterations (chi^2 free per state)"
 OUTSIDE = "size of accumulated rounding over long chains (64-bit nonlinear FP chains are not bit-blastable here)"
 ASSUMPTIONS = ["operands have unit quaternions", "a % m = a - m*k, k integer, 0 <= result < m", "sqrt contract"]
 
@@ -43,6 +43,15 @@ def _se2(op):
             res = a.copy()
             res += b
             exact = tha + thb
+        elif op == "iadd-self":  # the augmented assignment with ONE object on both sides (aliasing)
+            res = a.copy()
+            res += res
+            exact = tha + tha
+        elif op == "iadd-boxplus":
+            d = P.vector("d", 3)
+            res = a.copy()
+            res += d
+            exact = tha + d[2]
         P.check("is_se2", type(res) is g.PoseSE2)
         r = res[2]
         P.check("range", P.both(r >= -pi, r <= pi))
@@ -71,6 +80,16 @@ def _se3(op):
         elif op == "iadd":
             res = a.copy()
             res += b
+        elif op == "iadd-self":  # the augmented assignment with ONE object on both sides (aliasing)
+            fresh = a.copy() + a.copy()
+            res = a.copy()
+            res += res
+            for i in range(7):
+                P.check_eq("equals_fresh_a_plus_a[%d]" % i, res[i], fresh[i])
+        elif op == "iadd-boxplus":
+            d = P.vector("d", 6)
+            res = a.copy()
+            res += d
         P.check("is_se3", type(res) is g.PoseSE3)
         q = res[3:]
         P.check_eq("unit", q[0] * q[0] + q[1] * q[1] + q[2] * q[2] + q[3] * q[3], 1.0)
@@ -101,6 +120,10 @@ def _se3_norm_product(op):
             res = a.copy()
             res += b
             expect = na * nb
+        elif op == "iadd-self":
+            res = a.copy()
+            res += res
+            expect = na * na
         elif op == "boxplus":
             d = P.vector("d", 6, lo=-0.5, hi=0.5)  # |d_v|^2 <= 0.75: the sqrt branch of the norm test
             res, expect = a + d, na
@@ -195,11 +218,11 @@ def _fpwrap(via):
 def cases(tier):
     v = 2 if tier == "quick" else 6
     out = [Case("fpwrap-" + via, _fpwrap(via), timeout=120, old_timeout=120, validate=3, shadow=False) for via in ("function", "constructor", "copy")]
-    for op in ["construct", "add", "sub", "inverse", "copy", "boxplus", "iadd"]:
+    for op in ["construct", "add", "sub", "inverse", "copy", "boxplus", "iadd", "iadd-self", "iadd-boxplus"]:
         out.append(Case("se2-" + op, _se2(op), timeout=20, validate=v))
-    for op in ["add", "sub", "inverse", "copy", "boxplus", "iadd"]:
+    for op in ["add", "sub", "inverse", "copy", "boxplus", "iadd", "iadd-self", "iadd-boxplus"]:
         out.append(Case("se3-" + op, _se3(op), timeout=20, old_timeout=40, validate=v))
-    for op in ["add", "sub", "inverse", "copy", "boxplus", "iadd"]:
+    for op in ["add", "sub", "inverse", "copy", "boxplus", "iadd", "iadd-self"]:
         out.append(Case("se3-normproduct-" + op, _se3_norm_product(op), timeout=20, old_timeout=40, validate=v))
     for kind in ("SE2", "SE3"):
         for mi in (1, 3):
